@@ -1,2 +1,140 @@
-(* Props/C16.v — placeholder while the correspondence is being established; replaced by the theorems. *)
-From Verif Require Import Lib.Base Lib.PyStr Lib.Crypto Model.Jar Model.JarCheck.
+(* Props/C16.v — property C16: request objects and pushed requests are authenticated before they take
+   effect.  Only statements, each closed by `exact <lemma>`, with Print Assumptions, and non-vacuity examples.
+
+   Vocabulary (Model/Jar.v): `run g d (init t0) ops` is the list of (state after, result) of the operations
+   OAuthz (authorization endpoint parse_request: by value / by request_uri served from the documents d /
+   redeeming a pushed request), OPush (PAR parse+process) and OTick, for EVERY operation list ops.
+   `Acc r` = the request came back accepted; `r_vr r = Some v` = a verified request object v is attached, i.e.
+   object parameters took effect; v_key v = the key number under which its signature verified.
+   cfg_wf g = true is the boolean guard the harness evaluates on every observed configuration (last hook of
+   the authorization endpoint is _post_parse_request; no client with an empty id). *)
+From Coq Require Import String.
+From Verif Require Import Lib.Base.
+From Verif Require Import Lib.PyStr.
+From Verif Require Import Lib.Crypto.
+From Verif Require Import Model.Jar.
+From Verif Require Import Model.JarCheck.
+From Verif Require Import Proofs.Jar_proofs.
+
+(* C16_authenticated — uniformly over the three transports and over all histories: whenever object parameters
+   take effect, the request is attributed to a registered client c, the object names nobody but c (client_id,
+   iss), its algorithm is permitted for c (registered request_object_signing_alg, else the provider's set), it
+   is either unsigned (then "none" is what is permitted) or its signature verified under a key the key jar
+   holds for c (or a symmetric key of the provider itself), and its parameters are the effective ones. *)
+Theorem C16_authenticated : forall g d t0 ops, cfg_wf g = true ->
+  Forall (fun sr => forall r via v, snd sr = RAuthz (Acc r) via -> r_vr r = Some v -> authenticated g r v)
+         (run g d (init t0) ops).
+Proof. exact authenticated_all. Qed.
+Print Assumptions C16_authenticated.
+
+(* registered alg <> none  =>  the accepted object is signed with exactly the registered algorithm *)
+Theorem C16_registered_alg_enforced : forall g r v, authenticated g r v ->
+  forall c ci s, assoc k_client_id (r_params r) = Some (PS_ c) -> find_client (clients g) c = Some ci ->
+    c_reg ci = RStr s -> s <> s_none -> v_alg v = s /\ exists n, v_key v = Some n.
+Proof. exact authenticated_not_unsigned. Qed.
+Print Assumptions C16_registered_alg_enforced.
+
+(* C16_override — object parameters override same-named outer ones (all three transports, all histories) *)
+Theorem C16_override : forall g d t0 ops, cfg_wf g = true ->
+  Forall (fun sr => forall r via v, snd sr = RAuthz (Acc r) via -> r_vr r = Some v ->
+            forall k x, assoc k (v_claims v) = Some x -> assoc k (r_params r) = Some x)
+         (run g d (init t0) ops).
+Proof. exact override_all. Qed.
+Print Assumptions C16_override.
+
+(* ... and in the strict merge (by value, and what the PAR endpoint stores) nothing but the object survives *)
+Theorem C16_override_strict : forall g p w r v,
+  merge_obj true g p w = Acc r -> r_vr r = Some v ->
+  forall k, has_key k (r_params r) = true -> has_key k (v_claims v) = true.
+Proof. exact merge_strict. Qed.
+Print Assumptions C16_override_strict.
+
+(* C16_cross_client — an accepted object never names another client than the one the request is attributed to,
+   and is never keyed by anything but that client's keys: objects naming / signed by another client are refused *)
+Theorem C16_cross_client : forall g d t0 ops, cfg_wf g = true ->
+  Forall (fun sr => forall r via v c, snd sr = RAuthz (Acc r) via -> r_vr r = Some v ->
+            assoc k_client_id (r_params r) = Some (PS_ c) ->
+            (forall x, assoc k_client_id (v_claims v) = Some x -> x = PS_ c) /\
+            (forall x, assoc k_iss (v_claims v) = Some x -> x = PS_ c) /\
+            (forall n, v_key v = Some n -> exists kt, alg_kind (v_alg v) = AlgK kt /\ key_for g c kt n))
+         (run g d (init t0) ops).
+Proof. exact cross_client_all. Qed.
+Print Assumptions C16_cross_client.
+
+(* C16_par_once — over all orders of push / redeem / replay / tick (fresh request_uri values): no request_uri
+   redeems an accepted authorization request twice *)
+Theorem C16_par_once : forall g d t0 ops, NoDup (pushed_urns ops) -> NoDup (redeemed (run g d (init t0) ops)).
+Proof. exact par_once. Qed.
+Print Assumptions C16_par_once.
+
+(* C16_par_lifetime — a redeemed request_uri u was issued by an earlier push (u, pushed at t, lifetime l) and is
+   redeemed while  t <= now <= t + l;  every history entry is a push that stored a request and announced l *)
+Theorem C16_par_lifetime : forall g d t0 ops, Forall tick_ok ops ->
+  Forall (fun x => forall r u, snd (fst x) = RAuthz (Acc r) (Some u) ->
+            exists t l, In (u, t, l) (snd x) /\ (t <= now (fst (fst x)))%Z /\ (now (fst (fst x)) <= t + l)%Z)
+         (run_h g d (init t0) [] ops).
+Proof. exact par_lifetime. Qed.
+Print Assumptions C16_par_lifetime.
+
+Theorem C16_par_history_meaning : forall g st o res h x,
+  In x (hist_after g st o res h) -> In x h \/
+  exists pusher body w u r p, o = OPush pusher body w u /\ res = RPush (Acc r) p /\
+     ((exists e, p = PUrn e /\ x = (u, now st, e)) \/ (exists t, p = PStoredExc t /\ x = (u, now st, ttl g))).
+Proof. exact hist_after_spec. Qed.
+Print Assumptions C16_par_history_meaning.
+
+(* C16_par_own_uri — a pushed request comes back only through the request_uri it is stored under, exactly as
+   stored, not before/after its lifetime, and the entry is gone afterwards *)
+Theorem C16_par_own_uri : forall g d st r cid st' o u,
+  do_request_uri g d st r cid = (st', o, Some u) ->
+  exists e, In (u, e) (par_db st) /\ (now st <= e_exp e)%Z /\ o = Acc (e_req e)
+            /\ assoc k_request_uri (r_params r) = Some (PS_ u)
+            /\ (NoDup (db_keys st) -> ~ In u (db_keys st')).
+Proof. exact dru_via. Qed.
+Print Assumptions C16_par_own_uri.
+
+(* C16_unforgeable — symbolic (Dolev-Yao): if key k0 is never published, an object accepted under k0 carries the
+   signature term Sig k0 (alg, claims), and whoever can derive that term found it inside something an honest
+   party published: only objects the key holder signed, with exactly this algorithm and these claims, verify *)
+Theorem C16_unforgeable : forall (K : term -> Prop) (k0 : nat), (forall t, K t -> ~ sub (Key k0) t) ->
+  forall g fb w v, from_jwt g fb w = FOk v -> v_key v = Some k0 ->
+    wobj_sig_term w = Some (sig_term k0 (v_alg v) (v_claims v)) /\
+    (derivable K (sig_term k0 (v_alg v) (v_claims v)) ->
+     exists t0, K t0 /\ sub (sig_term k0 (v_alg v) (v_claims v)) t0).
+Proof. exact unforgeable. Qed.
+Print Assumptions C16_unforgeable.
+
+(* ---------------------------------------------------------------- non-vacuity: accepting and refusing runs *)
+Example C16_accepts_genuine :
+  cfg_wf (ex_cfg false (RStr s_rs256)) = true /\ cfg_wf (ex_cfg true RAbsent) = true /\
+  (* by value, RS256 registered and used *)
+  took_effect (outcome_of (authz_parse (ex_cfg false (RStr s_rs256)) [] (init 0) ex_by_value
+                                       (Some (wgen s_rs256 (ex_claims s_c1 s_r1) 0)))) = true /\
+  (* by request_uri *)
+  took_effect (outcome_of (authz_parse (ex_cfg true RAbsent) [(s_doc0, wgen s_es256 (ex_claims s_c1 s_r1) 1)] (init 0)
+                                       (ex_by_uri s_doc0) None)) = true /\
+  (* pushed at 0 with ttl 10, redeemed at 10 through its own uri; the replay is refused *)
+  List.map (fun x => (took_effect (fst x), refused (fst x), snd x))
+    (authz_results (run (ex_cfg true RAbsent) [] (init 0)
+       [OPush s_c1 ex_by_value (Some (wgen s_hs256 (ex_claims s_c1 s_r1) 2)) ex_urn; OTick 10;
+        OAuthz (ex_by_uri ex_urn) None; OAuthz (ex_by_uri ex_urn) None]))
+  = [(true, false, Some ex_urn); (false, true, None)].
+Proof. vm_compute. repeat split; reflexivity. Qed.
+
+Example C16_refuses :
+  (* unsigned although RS256 is registered *)
+  refused (outcome_of (authz_parse (ex_cfg false (RStr s_rs256)) [] (init 0) ex_by_value
+                                   (Some (WObj s_none (ex_claims s_c1 s_r1) None)))) = true /\
+  (* signed by client_2's key in client_1's name *)
+  refused (outcome_of (authz_parse (ex_cfg false RAbsent) [] (init 0) ex_by_value
+                                   (Some (wgen s_rs256 (ex_claims s_c1 s_r1) 3)))) = true /\
+  (* genuinely client_1's, but naming client_2 inside *)
+  refused (outcome_of (authz_parse (ex_cfg false RAbsent) [] (init 0) ex_by_value
+                                   (Some (wgen s_rs256 (ex_claims s_c2 s_r2) 0)))) = true /\
+  (* pushed at 0 with ttl 10, presented at 11 *)
+  List.map (fun x => (took_effect (fst x), refused (fst x)))
+    (authz_results (run (ex_cfg false RAbsent) [] (init 0)
+       [OPush s_c1 ex_by_value (Some (wgen s_hs256 (ex_claims s_c1 s_r1) 2)) ex_urn; OTick 11;
+        OAuthz (ex_by_uri ex_urn) None]))
+  = [(false, true)].
+Proof. vm_compute. repeat split; reflexivity. Qed.
